@@ -438,7 +438,7 @@ func replayMain(w World, cfg Config) int {
 	}
 	var v *Violation
 	if cfg.SubprocMinimise {
-		sig, det, _ := runOneSubproc(rf.Tape, cfg, 10*cfg.CaseTimeout)
+		sig, det, _ := runOneSubproc(rf.Tape, cfg, confirmTimeout(cfg))
 		if sig != "" {
 			v = &Violation{Sig: sig, Detail: det, Class: strings.SplitN(sig, "|", 2)[0]}
 		}
@@ -561,6 +561,11 @@ func wdSeconds(timeout time.Duration) int {
 	}
 	return s
 }
+
+// confirmTimeout bounds a confirmation run of one case in a fresh process:
+// three times the in-process liveness bound (the child's own watchdog fires
+// first and leaves a stack dump) plus slack.
+func confirmTimeout(cfg Config) time.Duration { return 3*cfg.watchdog() + 5*time.Second }
 
 var abort atomic.Bool
 
@@ -862,7 +867,7 @@ func superMain(w World, cfg Config) int {
 		f := bySig[s]
 		if cfg.SubprocMinimise || f.subproc {
 			// confirm in a fresh process, then shrink across processes
-			sig, det, ok := runOneSubproc(f.tape, cfg, 10*cfg.CaseTimeout)
+			sig, det, ok := runOneSubproc(f.tape, cfg, confirmTimeout(cfg))
 			if !ok {
 				trouble = append(trouble, "confirmation run misbehaved for "+s+": "+det)
 				continue
@@ -886,7 +891,7 @@ func superMain(w World, cfg Config) int {
 				sg, _, _ := runOneSubproc(c, cfg, wd+2*time.Second)
 				return sg
 			})
-			if sg, det, ok := runOneSubproc(min, cfg, 10*cfg.CaseTimeout); ok && sg == s {
+			if sg, det, ok := runOneSubproc(min, cfg, confirmTimeout(cfg)); ok && sg == s {
 				f.tape = min
 				if det != "" {
 					f.v.Detail = det
@@ -1111,7 +1116,7 @@ func runWorker(j job, cfg Config, workdir string) (fs []found, trouble []string,
 		} else if !wasHung && !cfg.CrashIsViolation {
 			trouble = append(trouble, fmt.Sprintf("worker died in case %d (seed %d): %s", lastCase, cs, tail(stderrS, 1500)))
 		} else {
-			sig, det, ok := confirmSeed(cs, cfg, 10*cfg.CaseTimeout)
+			sig, det, ok := confirmSeed(cs, cfg, confirmTimeout(cfg))
 			switch {
 			case ok && sig != "":
 				fs = append(fs, found{v: Violation{Class: strings.SplitN(sig, "|", 2)[0], Sig: sig, Detail: det}, seed: cs, tape: seedTape(cs, cfg), subproc: true})
